@@ -4,13 +4,15 @@ from .. import vlib
 
 TRUSTED = [
     "Lean 4.33 kernel; axioms per theorem listed under coverage.axioms (subset of propext, Classical.choice, Quot.sound)",
-    "translate/sumfuns.py (funs table, rate_unit/mul_unit/div_unit, is_total rules of SummaryState and SummaryConfig -> Gen/SumFuns.lean); "
-    "it also refuses to run when rate<>, setFactors, struct quantity or update_*_var lose the modelled shape; cross-checked by the correspondence",
+    "translate/sumfuns.py (funs table, rate_unit/mul_unit/div_unit, SegmentPressures::Value, is_total rules of SummaryState and SummaryConfig -> Gen/SumFuns.lean); "
+    "it also refuses to run when rate<>, crate<>, crate_resv<>, cpr, ratel<>, cratel<>, segment_quantity, srate<>, segpress<>, region_rate<>, node_pressure, "
+    "find_wells, find_region_wells, setFactors, struct quantity, update_*_var or parseKeywordType lose the modelled shape; cross-checked by the correspondence",
     "harness/summary.cpp + lib/vlib.py differ; model driver (compiled Lean, Float = IEEE double)",
-    "modelled, not verified: funs entries that translate to `atom` (tracers, guide rates, potentials, regions, segments, network, "
-    "connection/completion level), UnitSystem conversion factors (passed in from the real UnitSystem; hard constants in property mode), "
-    "calendar arithmetic (civilFromDays model: periodicity proved, round trip not; tied to gmtime by the sumfuns.time op and property mode), "
-    "Float vs field arithmetic",
+    "out::RegionCache (the harness builds the real class to obtain the connections of a region), Well::getConnections / complnum (read from the real Schedule)",
+    "modelled, not verified: funs entries that translate to `atom` (tracers, guide rates, potentials, productivity indices, control modes, aquifers, "
+    "segment densities / velocities / holdup, filtrate, inter-region flows), UnitSystem conversion factors (passed in from the real UnitSystem; hard constants "
+    "in property mode), gmtime of the real code (the model's date function is proved a valid-date right inverse of the day count; tied to gmtime by the "
+    "sumfuns.time op and property mode), Float vs field arithmetic",
 ]
 
 
